@@ -58,7 +58,7 @@ def compare(sc, m, res):
         return [V('no-grid', "result grid is not a strictly increasing subset of the "
                              "input times starting at the first one")], {}
     for name in sched.SD_TABLES:
-        if not sched.same_bits(np.asarray(getattr(res, name).index, dtype=float), grid):
+        if not sched.same_times(np.asarray(getattr(res, name).index, dtype=float), grid):
             return [V('no-grid', f"{name} is not indexed by the result grid")], {}
     # the reference evaluates the measurement models on FRESH objects built from the
     # scenario, so that state carried inside the objects the filter used cannot reach it
